@@ -34,6 +34,9 @@ pub struct WorldCfg {
     pub max_templates: usize,
     pub max_lex: usize,
     pub max_dim: usize,
+    /// One world in `big_dim_one_in` gets 22..=48 ids per side (sorting and permutation code
+    /// behaves differently on longer id lists); 0 = never.
+    pub big_dim_one_in: u64,
 }
 
 impl Default for WorldCfg {
@@ -44,6 +47,7 @@ impl Default for WorldCfg {
             max_templates: 12,
             max_lex: 30,
             max_dim: 6,
+            big_dim_one_in: 10,
         }
     }
 }
@@ -414,8 +418,11 @@ pub fn gen_bigram(rng: &mut Rng, k: usize, num_right: usize, num_left: usize) ->
 pub fn gen_world(rng: &mut Rng, plan: &mut Plan, cfg: &WorldCfg) -> WorldInfo {
     let mut r = rng.fork();
     let conn = *r.pick(&cfg.conns);
-    let num_left = 2 + r.usize(cfg.max_dim - 1);
-    let num_right = 2 + r.usize(cfg.max_dim - 1);
+    let (num_left, num_right) = if cfg.big_dim_one_in > 0 && r.chance(1, cfg.big_dim_one_in) {
+        (22 + r.usize(27), 22 + r.usize(27))
+    } else {
+        (2 + r.usize(cfg.max_dim - 1), 2 + r.usize(cfg.max_dim - 1))
+    };
     let (char_def, cats) = gen_char_def(&mut rng.fork(), None);
     let unk_def = gen_unk_def(&mut rng.fork(), &cats, num_left, num_right);
     let n_lex = 3 + r.usize(cfg.max_lex - 2);
